@@ -58,6 +58,17 @@ def make_script(rng, wrap):
             fn = (fn + (1 if rng.chance(5, 6) else rng.choice([2, 4]))) % H
         if rng.chance(1, 12):
             ops.append(("ctrl", rng.below(n), W.rejected_cmd(rng)))      # refused / ignored: version, power and queue stay as they are
+        if defs and rng.chance(1, 20):
+            # POWEROFF addressed to a parent that is itself idle while one of its children runs (powered on through its own control
+            # socket) and holds bursts: the children are switched off and their queues cleared all the same
+            par = rng.choice(sorted(set(0 if d[1] == 5700 else 1 for d in defs)))
+            kids = [2 + k for k, d in enumerate(defs) if (0 if d[1] == 5700 else 1) == par]
+            c = rng.choice(kids)
+            ops += [("ctrl", par, W.cmd("CMD POWEROFF")), ("ctrl", c, W.cmd("CMD POWERON"))]
+            for a in (1, 2, 2):
+                ops.append(("data", c, W.tx_datagram(vers[c], (fn + a) % H, rng.below(8), 0, W.rand_burst(rng, 148))))
+            ops += [("ctrl", par, W.cmd("CMD POWEROFF")), ("ctrl", par, W.cmd("CMD POWERON")), ("tick", fn), ("tick", (fn + 1) % H), ("tick", (fn + 2) % H)]
+            fn = (fn + 3) % H
     ops.append(("state",))
     return defs, ops
 
